@@ -41,6 +41,11 @@ def pool(rng):
     for _ in range(8):
         docs.append(gen.state_heavy(rng))       # heavy users of hidden state (random numbers, counters, label tables)
     docs.append(gen.edge_source(rng))
+    # documents that run into the parser's nesting limits: the guards' own bookkeeping is state too (a counter that is not wound back would
+    # change what the next conversion on the same engine, or in the same process, may nest)
+    docs.append(b'>' * rng.choice([1001, 1003, 1010]) + b' deep quote w1\n\nafter w2\n')
+    docs.append(b'> ' * 995 + b'quote just under the limit w3\n\nafter w4\n')
+    docs.append((b'[' * rng.choice([1001, 1200]) + b'x' + b']' * 1200 + b'\n\nafter w5\n'))
     return [d.split(b'\0')[0] for d in docs]
 
 
@@ -244,6 +249,49 @@ def work(job):
     return r
 
 
+def work_import(job):
+    """the text-extraction entry points (convert_opml_to_text / convert_itmz_to_text on a DString or an engine) are documented to leave the
+    caller's source alone: the source bytes (an ITMZ archive is binary: it holds NUL bytes) are compared before and after, and extracting again
+    -- from the same object, and in a later request of the same process -- gives the same text"""
+    seed, lo, hi = job
+    r = core.JobResult()
+    with core.Session(r) as s:
+        for i in range(lo, hi):
+            rng = core.job_rng(seed, ID, 'import', i)
+            docs = pool(core.job_rng(seed, ID, 'pool', i % 7))
+            src = docs[rng.randrange(len(docs))]
+            kind = i % 2            # 0 OPML (text), 1 ITMZ (zip)
+            made = s.call('asan', 'CONVERT', 10 if kind else 9, D.EXT_CLI, 0, 1 | (1 << 4), [src], crash_is_violation=False)
+            r.evaluations += 1
+            if made is None or made.status or not made.out:
+                continue
+            blob = made.out
+            if kind and b'\0' not in blob:
+                continue
+            hist, outs = [], []
+            for flags in ((1 | (kind << 4)), (2 | (kind << 4) | 0x100 | 0x200), (1 | (kind << 4)), (2 | (kind << 4) | 0x100 | (0x200 if kind else 0))):
+                rq = D.req_to_json('asan', 'IMPORT', 0, D.EXT_CLI, 0, flags, [blob])
+                hist.append(rq)
+                rep = s.call('asan', *D.req_from_json(rq), history=hist[:-1], crash_is_violation=False)
+                r.evaluations += 1
+                if rep is None:
+                    break
+                r.stats['imports_source_snapshotted'] += 1
+                what = ('ITMZ' if kind else 'OPML') + (' DString' if flags & 15 == 1 else ' engine')
+                if 'srcmod:' in rep.diag:
+                    r.violate('source-modified:' + rep.diag.split('srcmod:')[1].split(';')[0] + (':itmz' if kind else ':opml'), 'the caller\'s source changed during a convert_%s_to_text call (%s)' % ('itmz' if kind else 'opml', what),
+                              dict(requests=list(hist)), 'archive made from: ' + core.show(src, 300))
+                if 'import-twice-differs' in rep.diag:
+                    r.violate('import-twice-differs' + (':itmz' if kind else ':opml'), 'extracting the text twice from one engine gives two different results (%s): %s' % (what, rep.diag), dict(requests=list(hist)), core.show(src, 300))
+                if rep.status == 0:
+                    outs.append(rep.out)
+            if len(set(outs)) > 1:
+                r.violate('import-varies' + (':itmz' if kind else ':opml'), 'the same %s source gives different texts on successive extractions in one process' % ('ITMZ' if kind else 'OPML'), dict(requests=list(hist)), core.show(src, 300))
+            if len(outs) >= 2:
+                r.distinct.add(core.h64('import', kind, blob[:64], src))
+    return r
+
+
 def main():
     chk = core.Check(ID)
     n = chk.scale(2000, 60000)
@@ -271,4 +319,6 @@ def main():
         chk.merge(r)
     chunk = max(5, n // 64)
     chk.run_jobs(work, [(chk.seed, lo, min(n, lo + chunk), kmax) for lo in range(0, n, chunk)])
+    ni = chk.scale(640, 12000)
+    chk.run_jobs(work_import, [(chk.seed, lo, min(ni, lo + 20)) for lo in range(0, ni, 20)])
     return chk.finish()
